@@ -5,13 +5,20 @@ import json, os, glob
 V = os.path.dirname(os.path.dirname(os.path.abspath(__file__)))
 files = sorted(os.path.basename(f) for f in glob.glob(os.path.join(V, "harness", "w", "*_test.go")))
 ov = {"core/internal/integration_tests/zz_hysim_" + f: "harness/w/" + f for f in files}
+ov["core/internal/congestion/zz_hysim_observe.go"] = "harness/c10/congestion_observe.go"
+inject = [
+    {"file": "core/internal/congestion/utils.go", "func": "UseBrutal", "stmt": "verifObserve(\"brutal\", tx, conn)"},
+    {"file": "core/internal/congestion/utils.go", "func": "UseBBR", "stmt": "verifObserve(\"bbr:\"+string(profile), 0, conn)"},
+    {"file": "core/internal/congestion/utils.go", "func": "UseConfigured", "stmt": "verifObserve(\"configured\", 0, conn)"},
+]
 for hp in glob.glob(os.path.join(V, "harness", "c*", "harness.json")):
     h = json.load(open(hp))
     ch = False
     for p in h["parts"]:
         if p.get("rig") == "W" and p.get("pkg") == "./internal/integration_tests":
-            if p.get("overlay_files") != ov:
+            if p.get("overlay_files") != ov or p.get("inject") != inject:
                 p["overlay_files"] = ov
+                p["inject"] = inject
                 ch = True
     if ch:
         json.dump(h, open(hp, "w"), indent=1)
